@@ -263,6 +263,14 @@ def key_schemas():
                                                  ('B', [('Id', 'unique_id'), ('Rb', 'unique_id'), ('Ra', 'string')])],
                                [A(1, 'B', ['Ra', 'Rb'], True, True, '', 'A', ['K1', 'K2'], False, False, '')],
                                [('A', 'I1', ['K1', 'K2']), ('A', 'I2', ['K2']), ('B', 'I1', ['Id'])]))
+    # composite key whose referential names sort differently from the identifying names they pair with
+    out.append(relmodel.Schema('key_two_attrs_crossed', [('A', [('K1', 'string'), ('K2', 'unique_id'), ('N', 'integer')]),
+                                                         ('B', [('Id', 'unique_id'), ('Zb', 'string'), ('Ya', 'unique_id')])],
+                               [A(1, 'B', ['Zb', 'Ya'], True, True, '', 'A', ['K1', 'K2'], False, False, '')],
+                               [('A', 'I1', ['K2', 'K1']), ('B', 'I1', ['Id'])]))
+    out.append(relmodel.Schema('key_two_attrs_same_type', [('A', [('P', 'integer'), ('Q', 'integer')]),
+                                                           ('B', [('Id', 'unique_id'), ('Y', 'integer'), ('X', 'integer')])],
+                               [A(1, 'B', ['Y', 'X'], True, True, '', 'A', ['P', 'Q'], False, True, '')], []))
     out.append(relmodel.Schema('phrased_non_reflexive', [('A', [('Id', 'unique_id')]), ('B', [('Id', 'unique_id'), ('A_Id', 'unique_id')])],
                                [A(7, 'B', ['A_Id'], True, True, 'is held by', 'A', ['Id'], False, False, 'holds')], [('A', 'I1', ['Id'])]))
     # every (multiplicity, conditionality) combination of both ends
@@ -294,6 +302,12 @@ def links_family(tier):
                             continue
                         pool = KEY_VALUES.get(ty.lower())
                         is_key = any(an in a.tkeys and a.tgt == kind for a in schema.assocs)
+                        if is_key and ty.lower() == 'integer' and an == 'Q':
+                            values[an] = [7, 5][j] if j < 2 else None
+                            if values[an] is None:
+                                values = None
+                                break
+                            continue
                         if is_key and ty.lower() != 'unique_id':
                             if j >= len(pool):
                                 values = None
